@@ -1,6 +1,8 @@
 """C02 — Every delivery ends in exactly one, correct disposition (decision-table oracle)."""
 from __future__ import annotations
 
+from hypothesis import strategies as st
+
 from harness import gen, model, scenario, vclock
 from harness.core import Check, Outcome, SubCheck
 from harness.scenario import _params_of
@@ -116,7 +118,23 @@ def run(case: dict) -> Outcome:
 
 
 def _strategy(brokers):
-    return lambda: gen.worker_case(brokers=brokers)
+    @st.composite
+    def strat(draw):
+        gen.RARE_EXC[:] = ["BadStrError"]
+        try:
+            case = draw(gen.worker_case(brokers=brokers))
+        finally:
+            gen.RARE_EXC[:] = []
+        # sometimes the worker's connection has no bucket brokers although jobs ask for results: storing then fails,
+        # which must not change any disposition
+        if case["broker"] == "mem" and draw(st.integers(0, 5)) == 0 and not any(j.get("args") for j in case["jobs"]):
+            case["worker_buckets"] = False
+            for j in case["jobs"]:
+                # eager set_result needs a results broker at call time (it raises ValueError without one): keep the model simple
+                j["attempts"] = [o for o in j["attempts"] if o.get("k") != "eager"] or [{"k": "ret", "v": None, "sleep": 0.0}]
+        return gen.finalize(case)
+
+    return strat
 
 
 CHECK = Check(
